@@ -14,6 +14,7 @@ mod cmd_tc;
 mod cmd_parse;
 mod cmd_fmt;
 mod cmd_formats;
+mod cmd_partial;
 
 /// Command families.  To add one: create src/cmd_xxx.rs with
 /// `pub fn dispatch(cmd: &str, v: &J) -> Option<Result<J, String>>`, add `mod cmd_xxx;` above
@@ -27,6 +28,7 @@ const FAMILIES: &[fn(&str, &J) -> Option<Result<J, String>>] = &[
     cmd_parse::dispatch,
     cmd_fmt::dispatch,
     cmd_formats::dispatch,
+    cmd_partial::dispatch,
 ];
 
 fn dispatch(cmd: &str, v: &J) -> Result<J, String> {
